@@ -14,6 +14,7 @@ import (
 func runCheck(P *Program, verif, prop, tier string, seed int, verbose bool, t0 time.Time) int {
 	var results []*FuncResult
 	var keys []string
+	coverReturns = tier == "thorough"
 	for k, c := range P.contracts {
 		if hasProp(c.Props, prop) && !c.NoVerify {
 			keys = append(keys, k)
@@ -54,7 +55,7 @@ func runCheck(P *Program, verif, prop, tier string, seed int, verbose bool, t0 t
 	if tier == "thorough" {
 		timeout = 60 * time.Second
 	}
-	dischargeAll(obls, tmp, timeout, tier, 6)
+	dischargeAll(obls, tmp, timeout, tier, 12)
 
 	// verdicts
 	replayDir := filepath.Join(verif, "replays", prop)
@@ -83,7 +84,7 @@ func runCheck(P *Program, verif, prop, tier string, seed int, verbose bool, t0 t
 		nObl++
 		if o.Status == "discharged" {
 			nDis++
-			perSolver[o.Solver]++
+			perSolver[strings.TrimSuffix(o.Solver, " (grouped)")]++
 			if len(samples) < 6 && o.Solver != "trivial" {
 				samples = append(samples, map[string]interface{}{"obligation": o.Name, "kind": o.Kind, "clause": o.Clause, "smt_bytes": o.SmtBytes, "solver": o.Solver, "secs": round3(o.Secs), "integer_mode": o.Mode})
 			}
